@@ -189,6 +189,10 @@ func dispatch(fn *ast.FuncDecl, prefix string) map[int]string {
 }
 
 func main() {
+	if len(os.Args) > 1 && os.Args[1] == "census" {
+		censusMain(os.Args[2:])
+		return
+	}
 	if len(os.Args) != 3 {
 		die("usage: translator <bitpack.go> <out.v>")
 	}
